@@ -89,8 +89,7 @@ theorem iter_foldl_moved (c : Cfg K V) (ks : List K) (acc : St K V × List (K ×
   | cons k t ih =>
     rw [List.foldl_cons]
     refine GasMoved.trans ?_ (ih _)
-    unfold iterStep
-    split
+    rcases iterStep_fst c acc k with h | h <;> rw [h]
     · exact GasMoved.refl _
     · exact get_moved c acc.1 k
 
